@@ -1,4 +1,280 @@
-//! C27: not built yet.
-use crate::util::Ctx;
+//! C27 — asynchronous execution does not depend on the schedule.
+//! Resolver futures and list-item streams are `Pending` a chosen number of times (waking themselves);
+//! `execute_async` is driven by a manual poll loop with a counting waker; every resolver call is logged.
+//! Stream `c27.exec`: plan ↦ `response|call log|number of Pending polls` (Lean model of the sequential executor).
+//! Oracle on the implementation: same response and same call log as `execute_sync` over the equivalent
+//! synchronous world, for every assignment of pending counts; every `Pending` is preceded by a wake-up; for
+//! mutations the calls made for root field i all come before the calls made for root field i+1.
+use crate::util::*;
+use apollo_compiler::resolvers::{AsyncObjectValue, AsyncResolvedValue, Execution, FieldError, ObjectValue, ResolveInfo, ResolvedValue};
+use apollo_compiler::validation::Valid;
+use apollo_compiler::{ExecutableDocument, Schema};
+use futures::future::BoxFuture;
+use futures::stream::Stream;
+use std::future::Future;
+use std::pin::Pin;
+use std::sync::atomic::{AtomicUsize, Ordering};
+use std::sync::{Arc, Mutex};
+use std::task::{Context, Poll, Wake, Waker};
 
-pub fn run(_ctx: &mut Ctx) {}
+const SCHEMA: &str = "type Query { a: Int b: T c: [T] d: [Int] e: T }
+type Mutation { a: Int b: T c: [T] d: [Int] e: T }
+type T { a: Int b: T c: [T] d: [Int] e: T }";
+
+#[derive(Clone, Debug)]
+enum Plan { Leaf(u64), Error, Obj(Vec<FieldPlan>), List(Vec<(usize, Plan)>) }
+#[derive(Clone, Debug)]
+struct FieldPlan { key: String, delay: usize, plan: Plan }
+
+/// selection shape: (response key, field name, sub-shape for composite fields)
+#[derive(Clone, Debug)]
+struct Shape { fields: Vec<(String, String, Option<Shape>)> }
+
+fn gen_shape(r: &mut Rng, depth: usize, budget: &mut usize) -> Shape {
+    let n = 1 + r.below(3);
+    let mut fields = vec![];
+    let mut used = vec![];
+    for _ in 0..n {
+        if *budget == 0 { break; }
+        let fname = *r.pick(if depth >= 3 { &["a", "d"][..] } else { &["a", "b", "c", "d", "e"][..] });
+        let key = if r.chance(1, 4) { format!("k{}", r.below(3)) } else { fname.to_string() };
+        if used.contains(&key) { continue; }
+        used.push(key.clone());
+        *budget -= 1;
+        let sub = if matches!(fname, "b" | "c" | "e") { Some(gen_shape(r, depth + 1, budget)) } else { None };
+        fields.push((key, fname.to_string(), sub));
+    }
+    if fields.is_empty() { fields.push(("a".into(), "a".into(), None)); }
+    Shape { fields }
+}
+fn shape_text(s: &Shape) -> String {
+    let items: Vec<String> = s.fields.iter().map(|(k, f, sub)| {
+        let head = if k == f { f.clone() } else { format!("{k}: {f}") };
+        match sub { Some(sub) => format!("{head} {}", shape_text(sub)), None => head }
+    }).collect();
+    format!("{{ {} }}", items.join(" "))
+}
+/// a world for one object instance of the shape; `delay(r)` picks the pending count of each future / item
+fn gen_world(r: &mut Rng, s: &Shape, delay: &mut dyn FnMut(&mut Rng) -> usize) -> Vec<FieldPlan> {
+    s.fields.iter().map(|(key, fname, sub)| {
+        let d = delay(r);
+        let plan = match (fname.as_str(), sub) {
+            ("a", _) => if r.chance(1, 8) { Plan::Error } else { Plan::Leaf(r.below(100) as u64) },
+            ("d", _) => if r.chance(1, 10) { Plan::Error } else { let n = r.below(4); Plan::List((0..n).map(|_| (delay(r), Plan::Leaf(r.below(100) as u64))).collect()) },
+            ("c", Some(sub)) => { let n = r.below(3); Plan::List((0..n).map(|_| (delay(r), Plan::Obj(gen_world(r, sub, delay)))).collect()) }
+            (_, Some(sub)) => if r.chance(1, 8) { Plan::Error } else { Plan::Obj(gen_world(r, sub, delay)) },
+            _ => Plan::Error,
+        };
+        FieldPlan { key: key.clone(), delay: d, plan }
+    }).collect()
+}
+fn enc_plan(p: &Plan, out: &mut String) {
+    match p {
+        Plan::Leaf(v) => out.push_str(&format!("L{v};")),
+        Plan::Error => out.push('E'),
+        Plan::Obj(fs) => { out.push('O'); enc_fields(fs, out); }
+        Plan::List(items) => { out.push('A'); for (d, p) in items { out.push_str(&format!("I{d},")); enc_plan(p, out); } out.push('.'); }
+    }
+}
+fn enc_fields(fs: &[FieldPlan], out: &mut String) {
+    for f in fs { out.push_str(&format!("F{},{},", f.key, f.delay)); enc_plan(&f.plan, out); }
+    out.push('.');
+}
+fn count_delays(fs: &[FieldPlan]) -> usize {
+    fn p(pl: &Plan) -> usize { match pl { Plan::Obj(fs) => count_delays(fs), Plan::List(items) => items.iter().map(|(d, q)| d + p(q)).sum(), _ => 0 } }
+    fs.iter().map(|f| f.delay + p(&f.plan)).sum()
+}
+fn count_futures(fs: &[FieldPlan]) -> usize {
+    fn p(pl: &Plan) -> usize { match pl { Plan::Obj(fs) => count_futures(fs), Plan::List(items) => items.iter().map(|(_, q)| 1 + p(q)).sum(), _ => 0 } }
+    fs.iter().map(|f| 1 + p(&f.plan)).sum()
+}
+
+// ---------- asynchronous world ----------
+struct Delay { remaining: usize }
+impl Future for Delay {
+    type Output = ();
+    fn poll(mut self: Pin<&mut Self>, cx: &mut Context<'_>) -> Poll<()> {
+        if self.remaining > 0 { self.remaining -= 1; cx.waker().wake_by_ref(); Poll::Pending } else { Poll::Ready(()) }
+    }
+}
+type Log = Arc<Mutex<Vec<String>>>;
+struct AObj<'a> { fields: &'a [FieldPlan], path: String, log: Log }
+fn a_value<'a>(plan: &'a Plan, path: String, log: Log) -> Result<AsyncResolvedValue<'a>, FieldError> {
+    match plan {
+        Plan::Leaf(v) => Ok(AsyncResolvedValue::Leaf((*v).into())),
+        Plan::Error => Err(FieldError { message: "planned error".into() }),
+        Plan::Obj(fs) => Ok(AsyncResolvedValue::Object(Box::new(AObj { fields: fs, path, log }))),
+        Plan::List(items) => Ok(AsyncResolvedValue::List(Box::pin(ItemStream { items, idx: 0, remaining: items.first().map(|i| i.0).unwrap_or(0), path, log }))),
+    }
+}
+struct ItemStream<'a> { items: &'a [(usize, Plan)], idx: usize, remaining: usize, path: String, log: Log }
+impl<'a> Stream for ItemStream<'a> {
+    type Item = Result<AsyncResolvedValue<'a>, FieldError>;
+    fn poll_next(mut self: Pin<&mut Self>, cx: &mut Context<'_>) -> Poll<Option<Self::Item>> {
+        if self.idx >= self.items.len() { return Poll::Ready(None); }
+        if self.remaining > 0 { self.remaining -= 1; cx.waker().wake_by_ref(); return Poll::Pending; }
+        let i = self.idx;
+        self.idx += 1;
+        self.remaining = self.items.get(self.idx).map(|x| x.0).unwrap_or(0);
+        let items: &'a [(usize, Plan)] = self.items;
+        Poll::Ready(Some(a_value(&items[i].1, format!("{}/{}", self.path, i), self.log.clone())))
+    }
+}
+impl<'a> AsyncObjectValue for AObj<'a> {
+    fn type_name(&self) -> &str { if self.path.is_empty() { "Query" } else { "T" } }
+    fn resolve_field<'b>(&'b self, info: &'b ResolveInfo<'b>) -> BoxFuture<'b, Result<AsyncResolvedValue<'b>, FieldError>> {
+        let key = info.field_selections()[0].response_key().to_string();
+        let path = format!("{}/{}", self.path, key);
+        self.log.lock().unwrap().push(path.clone());
+        let entry = self.fields.iter().find(|f| f.key == key);
+        let log = self.log.clone();
+        Box::pin(async move {
+            let Some(entry) = entry else { return Err(FieldError { message: format!("no plan for {key}") }) };
+            Delay { remaining: entry.delay }.await;
+            a_value(&entry.plan, path, log)
+        })
+    }
+}
+// root object of a mutation must say "Mutation"
+struct ARoot<'a> { inner: AObj<'a>, ty: &'static str }
+impl<'a> AsyncObjectValue for ARoot<'a> {
+    fn type_name(&self) -> &str { self.ty }
+    fn resolve_field<'b>(&'b self, info: &'b ResolveInfo<'b>) -> BoxFuture<'b, Result<AsyncResolvedValue<'b>, FieldError>> { self.inner.resolve_field(info) }
+}
+
+// ---------- synchronous world ----------
+struct SObj<'a> { fields: &'a [FieldPlan], path: String, log: Log, ty: &'static str }
+fn s_value<'a>(plan: &'a Plan, path: String, log: Log) -> Result<ResolvedValue<'a>, FieldError> {
+    match plan {
+        Plan::Leaf(v) => Ok(ResolvedValue::leaf(*v)),
+        Plan::Error => Err(FieldError { message: "planned error".into() }),
+        Plan::Obj(fs) => Ok(ResolvedValue::object(SObj { fields: fs, path, log, ty: "T" })),
+        Plan::List(items) => {
+            let it = items.iter().enumerate().map(move |(i, (_, p))| s_value(p, format!("{path}/{i}"), log.clone()));
+            Ok(ResolvedValue::List(Box::new(it)))
+        }
+    }
+}
+impl<'a> ObjectValue for SObj<'a> {
+    fn type_name(&self) -> &str { self.ty }
+    fn resolve_field<'b>(&'b self, info: &'b ResolveInfo<'b>) -> Result<ResolvedValue<'b>, FieldError> {
+        let key = info.field_selections()[0].response_key().to_string();
+        let path = format!("{}/{}", self.path, key);
+        self.log.lock().unwrap().push(path.clone());
+        let Some(entry) = self.fields.iter().find(|f| f.key == key) else { return Err(FieldError { message: format!("no plan for {key}") }) };
+        s_value(&entry.plan, path, self.log.clone())
+    }
+}
+
+struct CountWaker(AtomicUsize);
+impl Wake for CountWaker { fn wake(self: Arc<Self>) { self.0.fetch_add(1, Ordering::SeqCst); } fn wake_by_ref(self: &Arc<Self>) { self.0.fetch_add(1, Ordering::SeqCst); } }
+
+fn data_text(resp: &apollo_compiler::response::ExecutionResponse) -> String {
+    match &resp.data { Some(m) => serde_json::to_string(m).unwrap_or_default(), None => "null".into() }
+}
+
+fn one(ctx: &mut Ctx, schema: &Valid<Schema>, mutation: bool, shape: &Shape, world: &[FieldPlan]) {
+    let src = format!("{} {}", if mutation { "mutation" } else { "query" }, shape_text(shape));
+    let Ok(doc) = ExecutableDocument::parse_and_validate(schema, &src, "q.graphql") else { ctx.stat("invalid_generated"); return };
+    let Ok(op) = doc.operations.get(None) else { return };
+    let ty: &'static str = if mutation { "Mutation" } else { "Query" };
+    let mut enc = String::new();
+    enc_fields(world, &mut enc);
+    let input = format!("{src} plan={enc}");
+    // asynchronous run under the manual executor
+    let alog: Log = Arc::new(Mutex::new(vec![]));
+    let aroot = ARoot { inner: AObj { fields: world, path: String::new(), log: alog.clone() }, ty };
+    let exec = Execution::new(schema, &doc).operation(op);
+    let waker_state = Arc::new(CountWaker(AtomicUsize::new(0)));
+    let waker: Waker = waker_state.clone().into();
+    let mut cx = Context::from_waker(&waker);
+    let mut pendings = 0usize;
+    let mut lost_wake = false;
+    let limit = count_delays(world) + 50;
+    let async_result = catch(|| {
+        let mut fut = Box::pin(exec.execute_async(&aroot));
+        loop {
+            let before = waker_state.0.load(Ordering::SeqCst);
+            match fut.as_mut().poll(&mut cx) {
+                Poll::Ready(r) => return Some(r),
+                Poll::Pending => {
+                    pendings += 1;
+                    if waker_state.0.load(Ordering::SeqCst) == before { lost_wake = true; }
+                    if pendings > limit { return None; }
+                }
+            }
+        }
+    });
+    let aresp = match async_result {
+        Ok(Some(Ok(r))) => r,
+        Ok(Some(Err(e))) => { ctx.fail("async-request-error", &input, &format!("{e:?}")); return }
+        Ok(None) => { ctx.fail("async-does-not-complete", &input, &format!("still Pending after {pendings} polls (planned {})", count_delays(world))); return }
+        Err(m) => { ctx.fail("async-panic", &input, &m); return }
+    };
+    if lost_wake { ctx.fail("pending-without-wake", &input, "execute_async returned Pending although no waker was invoked"); }
+    let alog_v = alog.lock().unwrap().clone();
+    let atext = data_text(&aresp);
+    ctx.case("c27.exec", &[format!("={enc}")], &format!("{atext}|{}|{pendings}", alog_v.join(",")));
+    // equivalent synchronous world
+    let slog: Log = Arc::new(Mutex::new(vec![]));
+    let sroot = SObj { fields: world, path: String::new(), log: slog.clone(), ty };
+    let exec2 = Execution::new(schema, &doc).operation(op);
+    match catch(|| exec2.execute_sync(&sroot)) {
+        Ok(Ok(sresp)) => {
+            let stext = data_text(&sresp);
+            let slog_v = slog.lock().unwrap().clone();
+            if stext != atext { ctx.fail("async-response-differs-from-sync", &input, &format!("async {atext} sync {stext}")); }
+            if sresp.errors.len() != aresp.errors.len() || sresp.errors.iter().zip(aresp.errors.iter()).any(|(a, b)| a.path != b.path) {
+                ctx.fail("async-errors-differ-from-sync", &input, &format!("async {:?} sync {:?}", aresp.errors.iter().map(|e| &e.path).collect::<Vec<_>>(), sresp.errors.iter().map(|e| &e.path).collect::<Vec<_>>()));
+            }
+            if slog_v != alog_v { ctx.fail("async-call-order-differs-from-sync", &input, &format!("async {alog_v:?} sync {slog_v:?}")); }
+        }
+        Ok(Err(e)) => ctx.fail("sync-request-error", &input, &format!("{e:?}")),
+        Err(m) => ctx.fail("sync-panic", &input, &m),
+    }
+    // serial root fields: the calls of root field i form one block, blocks in document order
+    let roots: Vec<&str> = world.iter().map(|f| f.key.as_str()).collect();
+    let mut cur = 0usize;
+    for entry in &alog_v {
+        let root = entry.trim_start_matches('/').split('/').next().unwrap_or("");
+        match roots.iter().position(|r| *r == root) {
+            Some(i) if i >= cur => cur = i,
+            _ => { ctx.fail(if mutation { "mutation-not-serial" } else { "root-fields-interleaved" }, &input, &format!("call log {alog_v:?}")); break }
+        }
+    }
+    if pendings > 0 { ctx.nontrivial(&enc); }
+    ctx.stat(if mutation { "mutations" } else { "queries" });
+    ctx.stat_n("pending_polls", pendings as u64);
+}
+
+pub fn run(ctx: &mut Ctx) {
+    let schema = Schema::parse_and_validate(SCHEMA, "s.graphql").expect("schema");
+    // exhaustive: every assignment of 0/1/2 pending polls to the futures of small worlds
+    let n_shapes = if ctx.thorough { 60 } else { 12 };
+    for si in 0..n_shapes {
+        let mut r = Rng(1000 + si as u64);
+        let mut budget = 4usize;
+        let shape = gen_shape(&mut r, 1, &mut budget);
+        let base = { let mut r2 = Rng(77 + si as u64); gen_world(&mut r2, &shape, &mut |_| 0) };
+        let n = count_futures(&base);
+        if n > 6 { continue; }
+        let total = 3usize.pow(n as u32);
+        for code in 0..total {
+            let mut c = code;
+            let mut r2 = Rng(77 + si as u64);
+            let world = gen_world(&mut r2, &shape, &mut |_| { let d = c % 3; c /= 3; d });
+            one(ctx, &schema, si % 2 == 1, &shape, &world);
+        }
+        ctx.stat("exhaustive_shapes");
+    }
+    // random beyond
+    let n = if ctx.thorough { 30_000 } else { 2_500 };
+    for i in 0..n {
+        let mut r = Rng(ctx.rng.next());
+        let mut budget = 3 + r.below(8);
+        let shape = gen_shape(&mut r, 0, &mut budget);
+        let maxd = 1 + r.below(4);
+        let world = gen_world(&mut r, &shape, &mut |r| if r.chance(1, 2) { 0 } else { r.below(maxd + 1) });
+        one(ctx, &schema, i % 3 == 0, &shape, &world);
+    }
+}
